@@ -3,6 +3,7 @@ package main
 // SSA instruction semantics (DESIGN §3.3).
 
 import (
+	"errors"
 	"go/constant"
 	"go/token"
 	"go/types"
@@ -1410,7 +1411,18 @@ func (g *Gen) loadClauses(in *ssa.UnOp) {
 		env := g.pointEnv(g.st, g.cur, nil)
 		env.vars["value"] = TV{g.vals[in], in.Type()}
 		env.vars["target"] = TV{g.val(fa.X), fa.X.Type()}
-		t, err := env.evalBool(cl.E)
+		var t string
+		var err error
+		if _, isVar := g.pathVarType[cl.Label]; isVar {
+			var tv TV
+			tv, err = env.eval(cl.E)
+			t = tv.t
+			if err == nil && g.sortOf(tv.ty) != g.keySort[fk] {
+				err = errors.New(fmtf("value of type %s does not fit pathvar %s", tv.ty, cl.Label))
+			}
+		} else {
+			t, err = env.evalBool(cl.E)
+		}
 		if err != nil {
 			g.errorf("%s: at load %s: %v", g.fnLabel(), key, err)
 			continue
